@@ -171,7 +171,8 @@ __CPROVER_ensures(__CPROVER_return_value == slist->elems[index] && (index == xv_
 static void append(struct slist *slist, const char *str, size_t str_len)
 __CPROVER_requires(__CPROVER_is_fresh(slist, sizeof(struct slist)) && slist->len < XC_LIST_MAX && XV_LIVE_OK2(xv_heap_live))
 __CPROVER_requires(!xv_trust_shape ==> (XC_SLIST_SHAPE(slist) && XC_ELEM(slist)))
-__CPROVER_requires(str == NULL || (str_len <= XC_STR_MAX && __CPROVER_is_fresh(str, str_len == 0 ? 1 : str_len)))
+__CPROVER_requires(!xv_trust_shape ==> (str == NULL || (str_len <= XC_STR_MAX && __CPROVER_is_fresh(str, str_len == 0 ? 1 : str_len))))
+__CPROVER_requires(xv_trust_shape ==> (str == NULL || (str_len <= XC_STR_MAX && (str_len == 0 || __CPROVER_r_ok(str, str_len)))))
 __CPROVER_assigns(*slist, xv_heap_live)
 __CPROVER_frees(!xv_trust_shape: slist->elems)
 /* PO[C10] append.one_element_longer_in_a_block_of_its_own */
